@@ -33,6 +33,7 @@ def parseAct (tok : String) : Option Act :=
   | ["wakep", d] => d.toNat?.map Act.wakePar
   | ["hop"] => some Act.hop
   | ["hopc"] => some Act.hopCur
+  | ["fwait"] => some Act.fwait
   | ["startc", d] => d.toNat?.map (Act.start · true)     -- async::operator()
   | ["spawn", d] => d.toNat?.map (Act.start · false)     -- coroutine type with coro_queue::initial_awaiter
   | ["park"] => some Act.park
